@@ -9,7 +9,10 @@ import (
 // Generator of seeded random histories: consensus-like flows (INIT votes, suffrage-confirm
 // votes after an expel, ACCEPT votes, next height) with deviations (old, duplicate, future and
 // conflicting ballots, embedded voteproofs that are canonical, missing or adversarial,
-// explicit SetLastPoint / Count calls, reads of Voted / MissingNodes).
+// explicit SetLastPoint / Count calls, reads of Voted / MissingNodes), ACCEPT ballots that
+// arrive late (after the INIT ballots of the next round or height), voters that disagree on
+// the expels (a draw the box holds back) and runs of the box's ticker (Tick: held records
+// are counted by countHoldeds).
 type gen struct {
 	rng   *rand.Rand
 	n     int
@@ -144,6 +147,11 @@ func (g *gen) ballot(node string, h, r, s int, sc bool, f string, ex []string) O
 }
 
 func (g *gen) stageVotes(h, r, s int, sc bool, ex []string) []Op {
+	return g.stageVotesKnowing(h, r, s, sc, ex, 5)
+}
+
+// stageVotesKnowing: one voter in `unaware` does not know of the expels (its fact differs).
+func (g *gen) stageVotesKnowing(h, r, s int, sc bool, ex []string, unaware int) []Op {
 	var ops []Op
 
 	voters := g.nodesExcept(nil)
@@ -164,7 +172,7 @@ func (g *gen) stageVotes(h, r, s int, sc bool, ex []string) []Op {
 		}
 
 		e := ex
-		if len(ex) > 0 && g.rng.Intn(5) == 0 {
+		if len(ex) > 0 && g.rng.Intn(unaware) == 0 {
 			e = nil // this node does not know of the expel
 		}
 
@@ -187,17 +195,44 @@ func (g *gen) history(maxLen int, concurrent bool) History {
 
 	var ops []Op
 
+	var late []Op // ACCEPT ballots of an earlier block that have not arrived yet
+
 	h, r := 1, 0
 	for len(ops) < maxLen && h <= 4 {
 		ex := g.pickEx()
-		ops = append(ops, g.stageVotes(h, r, sINIT, false, ex)...)
+
+		unaware := 5
+		if len(ex) > 0 && g.rng.Intn(3) == 0 {
+			unaware = 2 // the voters disagree on the expels: a draw that is held back is likely
+		}
+
+		ops = append(ops, g.stageVotesKnowing(h, r, sINIT, false, ex, unaware)...)
+
+		if len(ex) > 0 && g.rng.Intn(3) == 0 {
+			ops = append(ops, Op{Op: "Tick"})
+		}
+
+		if len(late) > 0 {
+			ops = append(ops, late...)
+			late = nil
+
+			if g.rng.Intn(2) == 0 {
+				ops = append(ops, Op{Op: "Tick"})
+			}
+		}
 
 		if len(ex) > 0 && g.rng.Intn(5) > 0 {
 			ops = append(ops, g.stageVotes(h, r, sINIT, true, ex)...)
 		}
 
 		if g.rng.Intn(6) > 0 {
-			ops = append(ops, g.stageVotes(h, r, sACCEPT, false, ex)...)
+			acc := g.stageVotes(h, r, sACCEPT, false, ex)
+
+			if g.rng.Intn(5) == 0 {
+				late = acc
+			} else {
+				ops = append(ops, acc...)
+			}
 		}
 
 		switch p := g.rng.Intn(10); {
@@ -214,6 +249,10 @@ func (g *gen) history(maxLen int, concurrent bool) History {
 
 	for _, o := range ops {
 		out = append(out, o)
+
+		if o.Op != "Vote" {
+			continue
+		}
 
 		switch p := g.rng.Intn(40); {
 		case p == 0:
@@ -236,6 +275,8 @@ func (g *gen) history(maxLen int, concurrent bool) History {
 			x := o
 			x.B.Node = "x9"
 			out = append(out, x)
+		case p == 13 || p == 14:
+			out = append(out, Op{Op: "Tick"})
 		}
 	}
 
@@ -260,9 +301,10 @@ func (g *gen) history(maxLen int, concurrent bool) History {
 
 	nt := 2 + g.rng.Intn(3)
 	hist.Threads = make([][]Op, nt)
+	hist.Ticker = g.rng.Intn(2) == 0 // the box's own ticker runs next to the threads
 
 	for _, o := range rest {
-		if o.Op == "Voted" || o.Op == "Missing" {
+		if o.Op == "Voted" || o.Op == "Missing" || o.Op == "Tick" {
 			continue
 		}
 
